@@ -16,6 +16,8 @@ replay = F.replay
 
 def run(ctx, model_ok, deep=False):
     F.run_suites(ctx, model_ok, deep, [
+        ("programs", S.programs_suite, S.falsify_programs,
+         "110 (quick) / 1500 (thorough) random programs of 55-70 API calls over 3 checkers, 3 builders, every pool key (with/without alg attribute, private/public), callbacks, clocks and both providers; every answer compared with the model; 60% of the verifies and generates are asked of a fresh twin configured by the same calls first", False),
         ("alg-matrix", None, S.falsify_accept,
          "all cells: configured alg x key x route; 23 header variants x signature classes incl. empty third segment", True),
         ("token-shapes", S.token_shapes, S.falsify_accept, "2, 3 and 4+ segment shapes with empty/non-empty parts under keyless and keyed checkers", True),
